@@ -3,6 +3,9 @@ import json, os, subprocess
 V = os.path.dirname(os.path.dirname(os.path.abspath(__file__)))
 
 CHECKS = {
+ 'C01': dict(technique='exhaustive offline value checker over recorded API calls vs independently parsed data files',
+             text='Every scalar accessor is called for every Z in [-3,125] and every macro value in and around the legal range in both data configurations; each (status, value) is compared with the record read from the shipped data file by an independent parser, names mapped to macro values through a compiled probe. The discrete space is enumerated completely.',
+             note='Trusted: xv/refdata.py parsers, the compiled macro probe, numpy; tolerance 1e-10 relative (the 11 digits the build preserves).', ref='2 C01'),
  'C03': dict(technique='runtime contract monitor (inline assertions on every call of an exhaustive/sampled API sweep)',
              text='Every exported function is executed over its full discrete argument space (sampled where the product exceeds the budget) with an inline monitor asserting the error contract on each call, with and without an error slot, in both data configurations; held = no contract violation on the calls listed in the evidence.',
              note='Trusted: gcc/glibc, the monitor harness/mon_sweep*.c and the result classes of xv/sigtab.py; continuous arguments are sampled (table ends, edges +/-1e-9, found by bisection).', ref='2 C03'),
